@@ -353,8 +353,10 @@ def r7_channel_order(ctx):
     """R7: the per-channel offsets (delta_pdb_per_channel) a ROADM equalises with are stored in the same channel order as
     the frequencies and powers they belong to: SpectralInformation re-orders EVERY per-channel array with the one
     argsort of the frequencies (shared with C01-R2)"""
-    from .c01 import init_permutation
-    init_permutation(ctx, 'R7.channel-order')
+    from .c01 import r2_base
+    from .common import proxy
+    r2_base(proxy(ctx, 'R7'))        # constructor permutation + field-by-field mapping of select_channels / __add__
+    ctx.need('R7.init-permutation', 16)
 
 
 def rk_field_key(ctx):
